@@ -240,6 +240,24 @@ def run(ctx):
                 g, mvar, bigger_is_other = tie
                 strict_ = isinstance(g.ops[0], (ast.Lt, ast.Gt)) and bigger_is_other
                 ctx.check("C09.R3", "record branches: update only when strictly more fields are shared (first wins on ties)", strict_, wu.where(g), f"write_union: {norm(g)} updates {mvar}", "with a non-strict comparison a later record branch wins ties, against schema order")
+                # the running maximum starts below every possible count (a count is a len(): >= 0), or a conforming record
+                # that shares no field name with the datum (no fields, all defaults) can never be selected
+                inits = [v for v in assigned_values(wu.node, mvar) if not any(isinstance(x, ast.Name) for x in ast.walk(v))]
+                consts = []
+                for v in inits:
+                    if isinstance(v, ast.Constant) and isinstance(v.value, (int, float)) and not isinstance(v.value, bool):
+                        consts.append(v.value)
+                    elif isinstance(v, ast.UnaryOp) and isinstance(v.op, ast.USub) and isinstance(v.operand, ast.Constant) and isinstance(v.operand.value, (int, float)):
+                        consts.append(-v.operand.value)
+                    elif norm(v) in ("float('-inf')", "-float('inf')", "-math.inf"):
+                        consts.append(-1)
+                    else:
+                        consts.append(None)
+                if not consts or any(c is None for c in consts):
+                    ctx.unrecognised("C09.R3", "record branches: the running maximum starts below zero", wu.where(g), f"initial value of {mvar} not a constant: {[norm(v) for v in inits]}")
+                else:
+                    ok_init = all(c < 0 for c in consts) if strict_ else all(c <= 0 for c in consts)
+                    ctx.check("C09.R3", "record branches: the running maximum starts below every possible count", ok_init, wu.where(g), f"write_union: {mvar} starts at {consts} and is raised on `{norm(g)}`", "a conforming record branch that shares no field name with the datum (a record without fields, or whose fields all have defaults and are omitted) never beats the initial value: the datum is rejected although a branch conforms")
             elif is_float:
                 continue  # the float->double deferral keeps searching by design (C02.R4)
             else:
@@ -247,7 +265,16 @@ def run(ctx):
                 if lp is None:
                     continue
                 n_exit += 1
-                again = lp in cfg.reachable_from(node, skip_labels=("exc",))
+                # the float -> double deferral keeps searching by design (C02.R4): edges on which the branch kind is
+                # known to be 'float' do not count
+                float_edges = set()
+                for t in cfg.nodes:
+                    if t.kind == "test" and isinstance(t.ast, ast.Compare) and len(t.ast.ops) == 1 and "'float'" in [norm(t.ast.left), norm(t.ast.comparators[0])]:
+                        lab_f = "true" if isinstance(t.ast.ops[0], ast.Eq) else ("false" if isinstance(t.ast.ops[0], ast.NotEq) else None)
+                        for (m, lab) in t.succ:
+                            if lab == lab_f:
+                                float_edges.add((t, m, lab))
+                again = lp in cfg.reachable_from(node, skip_labels=("exc",), skip_edges=float_edges)
                 ctx.check("C09.R3", "a conforming non-record branch ends the search", not again, wu.where(stmt), f"write_union: after `{text}` the loop continues", "without leaving the loop a later conforming branch would replace the first one")
         if n_tie == 0:
             ctx.unrecognised("C09.R3", "write_union", wu.where(), "record tie-break comparison (running maximum) not found")
